@@ -600,6 +600,7 @@ class FakeSock(_Named):
         self.backlog = collections.deque()
         self.blocked_writes = 0            # number of send() calls that raise BlockingIOError first
         self.reset = False                 # recv raises ConnectionResetError
+        self.stalled = False               # the peer's window is full: the socket is not writable (send raises EAGAIN)
 
     def setblocking(self, f):
         pass
@@ -639,6 +640,8 @@ class FakeSock(_Named):
             raise OSError(self.refused_errno, os_strerror(self.refused_errno))
         if self.reset and data:
             raise ConnectionResetError(errno.ECONNRESET, "Connection reset by peer")
+        if self.stalled and data:
+            raise BlockingIOError(errno.EAGAIN, "Resource temporarily unavailable")
         if self.blocked_writes > 0 and data:
             self.blocked_writes -= 1
             raise BlockingIOError(errno.EAGAIN, "Resource temporarily unavailable")
@@ -675,7 +678,19 @@ class FakeSock(_Named):
         return bool(self.inbox) or self.eof or bool(self.backlog) or self.reset
 
     def writable(self):
-        return not self.listening
+        return not self.listening and not self.stalled
+
+    def getpeername(self):
+        if self.reset or self.closed:
+            raise OSError(errno.ENOTCONN, "Transport endpoint is not connected")
+        return ("127.0.0.1", 40000)
+
+    def getsockname(self):
+        return ("127.0.0.1", 3868)
+
+    def shutdown(self, how):
+        if self.reset or self.closed:
+            raise OSError(errno.ENOTCONN, "Transport endpoint is not connected")
 
 
 class FakeKey:
